@@ -143,10 +143,11 @@ Inductive side := SCtor | SSetter.
 Definition side_eqb (a b : side) : bool :=
   match a, b with SCtor, SCtor | SSetter, SSetter => true | _, _ => false end.
 
-(* the four ways a value reaches a field *)
-Inductive path := PCtor | PYaml | PAttr | PSweep.
+(* the ways a value reaches a field *)
+Inductive path := PCtor | PYaml | PAttr | PSweep
+  | PFromDict.   (* <Class>.from_dict({...}): the entry point of detectors read back from a file *)
 Definition side_of_path (p : path) : side :=
-  match p with PCtor | PYaml => SCtor | PAttr | PSweep => SSetter end.
+  match p with PCtor | PYaml | PFromDict => SCtor | PAttr | PSweep => SSetter end.
 
 (* regenerated: field -> (constructor guard, setter guard) *)
 Definition guard_table := list (fkey * (guard * guard)).
@@ -914,6 +915,23 @@ Definition ecase_violates (c : ecase) : bool :=
 Definition e_mismatches (pre post : list presence_check) (mdisp ddisp : list string) (cs : list ecase) : list Z :=
   indices_where (ecase_mismatch pre post mdisp ddisp) cs 0.
 Definition e_violations (cs : list ecase) : list Z := indices_where ecase_violates cs 0.
+
+(* Configuration(pipeline=..., <objects>) called directly with the given running-mode / detector objects (building the
+   same objects in Python): only the checks on the built objects (Configuration.__post_init__) stand in the way *)
+Record ccase := CCase { cc_given : list string; cc_accepted : bool }.
+
+Definition given_state (given : list string) (k : string) : sstate :=
+  if present_of given k then SFilled else SAbsent.
+
+Definition ccase_mismatch (post : list presence_check) (c : ccase) : bool :=
+  negb (Bool.eqb (checks_pass post (given_state (cc_given c))) (cc_accepted c)).
+
+Definition ccase_violates (c : ccase) : bool :=
+  let p := present_of (cc_given c) in
+  negb (Bool.eqb (exactly_one_b mode_keys p && exactly_one_b detector_keys p) (cc_accepted c)).
+
+Definition c_mismatches (post : list presence_check) (cs : list ccase) : list Z := indices_where (ccase_mismatch post) cs 0.
+Definition c_violations (cs : list ccase) : list Z := indices_where ccase_violates cs 0.
 
 (* a flattened document, the defaults that apply to it, and the settings read back from the loaded objects *)
 Record scase := SCase { sc_doc : list entry; sc_defaults : list entry; sc_observed : list entry }.
